@@ -2,11 +2,16 @@ import TF.Proofs.MmrIndex
 import TF.Proofs.MmrTree
 import TF.Proofs.MmrForest
 import TF.Proofs.MmrBounded
+import TF.Proofs.MmrAuthPathIdx
+import TF.Proofs.MmrForestTable
 /-!
 # C16 — MMR index arithmetic matches the explicit forest of perfect trees
 
 Property theorems only; helper lemmas are in `TF/Proofs/MmrIndex.lean` (closed forms of the translated functions),
-`TF/Proofs/MmrBounded.lean` (the executable comparison used by the `…_bounded_check` tests).
+`MmrTree.lean` / `MmrForest.lean` (loop functions against S1, S0 = prefix of S1), `MmrNodeIndex.lean` /
+`MmrAuthPathIdx.lean` (node coordinates, `get_authentication_path_node_indices`), `MmrForestTable.lean` (the `mt`,
+`auth` and peak-index columns of the table of S0 in coordinates; `forestAgrees n` for all `n < 2^63`),
+`TF/Proofs/MmrBounded.lean` (the executable comparison `forestAgrees`, also used by the `…_bounded_check` tests).
 
 * The loop-free functions `left_child, right_child, leaf_index_to_mt_index_and_peak_index,
   right_lineage_length_from_leaf_index, leftmost_ancestor, leaf_index_to_node_index, left_sibling, right_sibling,
@@ -19,9 +24,15 @@ Property theorems only; helper lemmas are in `TF/Proofs/MmrIndex.lean` (closed f
 
 Notation: `popCount` = number of set bits, `trailingOnes` = number of trailing one bits, `Nat.log2` = index of the
 highest set bit, `bitsBelow h n` = positions of the set bits of `n` below `h`, highest first.
+Node coordinates: `nodeIdx l j = (j+1)·2^(l+1) − 1 − popCount j` is the post-order index of the root of the aligned
+block `j` of `2^l` leaves ("the node `(l, j)`"); `anc l j t = nodeIdx (l+t) (j / 2^t)` its ancestor `t` levels up;
+`sibBlk j` = `j` with the lowest bit flipped; `sibsUp l j d` = node indices of the siblings of `(l, j)`, of its
+parent, … (`d` of them, bottom-up).
 -/
 namespace TF.C16
 open TF TF.Gen TF.Mmr TF.Spec.Mmr TF.Model.Mmr
+open TF.MmrE (nodeIdx anc sibsUp)
+open TF.Spec.MmrE (sibBlk)
 
 /-- `num_leafs_to_num_nodes n = 2n − popcount n` for every leaf count below `2^63`, without overflow. -/
 theorem num_leafs_to_num_nodes_exact (n : Nat) (h : n < 2^63) :
@@ -241,7 +252,166 @@ theorem get_peak_heights_and_peak_node_indices_exact (n : Nat) (hn : n < 2^63) :
 example : get_peak_heights_and_peak_node_indices (2^63) = none := by decide +kernel
 example : get_peak_heights_and_peak_node_indices 11 = some ([3, 1, 0], [15, 18, 19]) := by decide +kernel
 
-/-! ## what is still open -/
+/-! ## `get_authentication_path_node_indices(start_node_index, peak_node_index, node_count)`
+
+What the Rust code does (shared_advanced.rs:116): starting at `start_node_index` it climbs to the parent — in the one
+post-order numbered tree with node indices `1 … 2^64 − 1`; the MMR enters only through the bound `node_count` — while
+the current node index is `≤ node_count` and `≠ peak_node_index`, pushing the sibling of the current node in each
+round.  It answers `Some(path)` iff the node index at which the climb stops equals `peak_node_index`, else `None`.
+On the left-hand sides below the outer `some` says "the loop terminates" (within the 66 rounds of the model). -/
+
+/-- every node index `1 … 2^64 − 1` is `nodeIdx l j` for exactly one pair of coordinates `(l, j)` -/
+theorem every_node_index_has_coordinates (x : Nat) (h1 : 1 ≤ x) (h2 : x < 2^64) :
+    ∃ l j, x = nodeIdx l j ∧ ∀ l' j', x = nodeIdx l' j' → l' = l ∧ j' = j := by
+  obtain ⟨l, j, h⟩ := exists_coords x h1 h2
+  refine ⟨l, j, h, fun l' j' h' => ?_⟩
+  have := TF.MmrE.nodeIdx_inj l j l' j' (by rw [← h]; exact h2) (by rw [← h, ← h'])
+  exact ⟨this.1.symm, this.2.symm⟩
+example : (11 : Nat) = nodeIdx 0 6 ∧ (14 : Nat) = nodeIdx 2 1 := by decide +kernel
+
+/-- **complete description** for every start node `1 ≤ nodeIdx l j < 2^64`, every `peak_node_index` (node index or
+    not) and every `node_count ≤ 2^64 − 2`: the loop terminates after at most `63 − l` rounds; with `d` the first
+    level at which the ancestor `anc l j d` exceeds `node_count` or equals `peak`, the result is
+    `Some(siblings of the first d nodes of the path, bottom-up)` if that ancestor is `peak`, and `None` otherwise.
+    No `u64` operation wraps. -/
+theorem get_authentication_path_node_indices_exact (l j peak nc : Nat) (hlt : nodeIdx l j < 2^64)
+    (hnc : nc < 2^64 - 1) :
+    ∃ d, l + d ≤ 63 ∧ (nc < anc l j d ∨ anc l j d = peak) ∧ (∀ t, t < d → anc l j t ≤ nc ∧ anc l j t ≠ peak) ∧
+      get_authentication_path_node_indices (nodeIdx l j) peak nc
+        = some (if anc l j d = peak then some (sibsUp l j d) else none) :=
+  TF.MmrE.get_auth_path_spec l j peak nc hlt hnc
+example : nodeIdx 0 8 = 16 ∧ (16 : Nat) < 2^64 ∧ (19 : Nat) < 2^64 - 1 ∧
+    get_authentication_path_node_indices 16 31 19 = some none := by decide +kernel
+
+/-- **start node and an ancestor**: for the node `(l, j)` and its ancestor-or-self `d` levels up, provided all nodes
+    of the path strictly below that ancestor are `≤ node_count`, the result is exactly the list of the sibling node
+    indices along the path from the start node up to, excluding, the ancestor, bottom-up.  The ancestor itself (and
+    siblings on the path) may exceed `node_count` — the Rust code does not check that (second `example`: in the MMR
+    with 11 leaves / 19 nodes, start 16, "peak" 22: `Some([17, 21])`). -/
+theorem get_authentication_path_node_indices_of_ancestor (l j d nc : Nat) (hlt : anc l j d < 2^64)
+    (hbelow : ∀ t, t < d → anc l j t ≤ nc) :
+    get_authentication_path_node_indices (nodeIdx l j) (anc l j d) nc = some (some (sibsUp l j d)) :=
+  TF.MmrE.get_auth_path_ancestor l j d nc hlt hbelow
+example : nodeIdx 0 4 = 8 ∧ anc 0 4 3 = 15 ∧ sibsUp 0 4 3 = [9, 13, 7] ∧
+    get_authentication_path_node_indices 8 15 19 = some (some [9, 13, 7]) := by decide +kernel
+example : nodeIdx 0 8 = 16 ∧ anc 0 8 2 = 22 ∧ get_authentication_path_node_indices 16 22 19 = some (some [17, 21]) := by
+  decide +kernel
+
+/-- `Some(path)` **iff** `peak` is an ancestor-or-self of the start node and every node of the path strictly below it
+    is `≤ node_count`; `path` is then the list of siblings -/
+theorem get_authentication_path_node_indices_some_iff (l j peak nc : Nat) (hlt : nodeIdx l j < 2^64)
+    (hnc : nc < 2^64 - 1) (path : List Nat) :
+    get_authentication_path_node_indices (nodeIdx l j) peak nc = some (some path) ↔
+      ∃ d, l + d ≤ 63 ∧ anc l j d = peak ∧ (∀ t, t < d → anc l j t ≤ nc) ∧ path = sibsUp l j d :=
+  TF.MmrE.get_auth_path_some_iff l j peak nc hlt hnc path
+example : get_authentication_path_node_indices 20 20 19 = some (some []) := by decide +kernel
+
+/-- `None` **exactly** when the climb leaves `1 … node_count` without meeting `peak`: every level at which the
+    ancestor equals `peak` (if any) lies above a node of the path that already exceeds `node_count`.  In particular
+    `None` when `peak` is not an ancestor-or-self of the start node (e.g. the peak of another tree, or `0`), and for
+    `start > node_count`, `start ≠ peak` -/
+theorem get_authentication_path_node_indices_none_iff (l j peak nc : Nat) (hlt : nodeIdx l j < 2^64)
+    (hnc : nc < 2^64 - 1) :
+    get_authentication_path_node_indices (nodeIdx l j) peak nc = some none ↔
+      ∀ d, l + d ≤ 63 → anc l j d = peak → ∃ t, t < d ∧ nc < anc l j t :=
+  TF.MmrE.get_auth_path_none_iff l j peak nc hlt hnc
+example : get_authentication_path_node_indices 8 18 19 = some none ∧
+    get_authentication_path_node_indices 20 21 19 = some none := by decide +kernel
+
+/-- the excluded start value `0` (not a node index), with the wrapping arithmetic of a release build:
+    `Some []` for `peak = 0`, otherwise the result for start `1` with a `0` in front (`leftmost_ancestor(0)` wraps to
+    `(0, 2^32 − 1)`, "sibling" `0`, "parent" `1`).  A debug build panics in `leftmost_ancestor`.
+    (The other excluded input, `node_count = u64::MAX`, is the node count of no MMR; there the climb can pass the
+    root `2^64 − 1` and wrap to `0` — third `example`: it never ends.) -/
+theorem get_authentication_path_node_indices_start_zero (peak nc : Nat) (hnc : nc < 2^64 - 1) :
+    get_authentication_path_node_indices 0 peak nc =
+      if peak = 0 then some (some [])
+      else (get_authentication_path_node_indices 1 peak nc).map (fun res => res.map (fun p => 0 :: p)) :=
+  TF.MmrE.get_auth_path_start_zero peak nc hnc
+example : get_authentication_path_node_indices 0 3 19 = some (some [0, 2]) := by decide +kernel
+example : get_authentication_path_node_indices 0 0 19 = some (some []) := by decide +kernel
+example : get_authentication_path_node_indices 1 2 18446744073709551615 = none := by decide +kernel
+
+/-! ## the `mt` / `auth` / peak-index columns of the explicit forest, and the remaining functions against S0 -/
+
+/-- **the table of the explicit forest in coordinates**: a row with peak index `k` of the forest with `n < 2^63` leaves
+    belongs to a set bit `b` of `n` with `k` set bits above it; it is the node `(r.height, j)` below the aligned block
+    `(b, 2·(n / 2^(b+1)))`; the `k`-th peak is its ancestor `b − r.height` levels up and lies inside the forest; the
+    Merkle-tree index and the authentication path recorded in the table (computed by walking the tree) are
+    `2^(b−height) + j mod 2^(b−height)` and `sibsUp`; a leaf row has `j` = its leaf index -/
+theorem forest_table_in_coordinates (n : Nat) (hn : n < 2^63) (k : Nat) (r : Row) (hr : (k, r) ∈ (forest n).rows) :
+    ∃ b j, n / 2^b % 2 = 1 ∧ k = popCount (n / 2^(b+1)) ∧ r.height ≤ b ∧
+      j / 2^(b - r.height) = 2 * (n / 2^(b+1)) ∧ r.idx = nodeIdx r.height j ∧
+      ((forest n).peaks.map TF.Spec.Mmr.Tree.idx)[k]? = some (anc r.height j (b - r.height)) ∧
+      anc r.height j (b - r.height) ≤ (forest n).nodes ∧
+      r.mt = 2^(b - r.height) + j % 2^(b - r.height) ∧
+      r.auth = sibsUp r.height j (b - r.height) ∧
+      (∀ li, r.leaf = some li → r.height = 0 ∧ li = j) :=
+  forest_row_facts n hn k r hr
+example : (2, 19, 0, some 10, 1, ([] : List Nat)) ∈ (forest 11).rows.map
+    (fun kr => (kr.1, kr.2.idx, kr.2.height, kr.2.leaf, kr.2.mt, kr.2.auth)) := by decide
+
+/-- **`get_authentication_path_node_indices` against the explicit forest**: for every leaf count below `2^63` and
+    every node of the forest (in particular every leaf), called with the node index of the node, the node index of
+    the peak of its tree and the node count of the forest, the function terminates and returns `Some` of the
+    authentication path recorded in the table of S0: the sibling node indices from the node up to, excluding, the
+    peak, lowest first -/
+theorem get_authentication_path_node_indices_agrees_with_forest (n : Nat) (hn : n < 2^63) (k : Nat) (r : Row)
+    (hr : (k, r) ∈ (forest n).rows) :
+    ∃ pk, ((forest n).peaks.map TF.Spec.Mmr.Tree.idx)[k]? = some pk ∧
+      get_authentication_path_node_indices r.idx pk (forest n).nodes = some (some r.auth) :=
+  forest_auth_path n hn k r hr
+example : (0, 8, [9, 13, 7]) ∈ (forest 11).rows.map (fun kr => (kr.1, kr.2.idx, kr.2.auth)) ∧
+    (forest 11).peaks.map TF.Spec.Mmr.Tree.idx = [15, 18, 19] := by decide
+
+/-- **… for a node and any ancestor in the explicit forest**: let `c 0, c 1, …, c d` be rows of the table of the
+    forest with `n < 2^63` leaves such that the parent recorded for `c t` is `c (t+1)`.  Then from `c 0` to its
+    ancestor `c d` the function returns `Some` of the siblings recorded for `c 0, …, c (d−1)`, in this order -/
+theorem get_authentication_path_node_indices_agrees_with_forest_chain (n : Nat) (hn : n < 2^63) (d : Nat)
+    (c : Nat → Row) (kk : Nat → Nat) (hrows : ∀ t, t ≤ d → (kk t, c t) ∈ (forest n).rows)
+    (hpar : ∀ t, t < d → (c t).parent = (c (t+1)).idx) :
+    get_authentication_path_node_indices (c 0).idx (c d).idx (forest n).nodes
+      = some (some ((List.range d).map fun t => (c t).sibling)) :=
+  forest_auth_path_chain n hn d c kk hrows hpar
+example : [(8, 10, 9), (10, 14, 13)] ⊆ (forest 11).rows.map (fun kr => (kr.2.idx, kr.2.parent, kr.2.sibling)) ∧
+    get_authentication_path_node_indices 8 14 19 = some (some [9, 13]) := by decide +kernel
+
+/-- **… on the explicit forest, exactly, for an arbitrary second argument**: for a node `r` of the forest with
+    `n < 2^63` leaves (coordinates `(r.height, j)`, its tree belonging to bit `b` of `n`), the node count of the forest
+    and *any* `p`: the result is `Some(path)` iff `p` is the node itself, one of its ancestors inside its tree (up to
+    the peak, `b − r.height` levels up), **or the would-be parent of the peak** (one level further: a node index
+    that is not in the forest — the Rust code does not notice, first `example`); `None` in every other case, in
+    particular for nodes of other trees and non-ancestors in the same tree (second `example`) -/
+theorem get_authentication_path_node_indices_on_forest_exact (n : Nat) (hn : n < 2^63) (k : Nat) (r : Row)
+    (hr : (k, r) ∈ (forest n).rows) :
+    ∃ b j, r.idx = nodeIdx r.height j ∧ r.height ≤ b ∧
+      ((forest n).peaks.map TF.Spec.Mmr.Tree.idx)[k]? = some (anc r.height j (b - r.height)) ∧
+      (∀ p path, get_authentication_path_node_indices r.idx p (forest n).nodes = some (some path) ↔
+         ∃ d, d ≤ b - r.height + 1 ∧ anc r.height j d = p ∧ path = sibsUp r.height j d) ∧
+      (∀ p, get_authentication_path_node_indices r.idx p (forest n).nodes = some none ↔
+         ∀ d, d ≤ b - r.height + 1 → anc r.height j d ≠ p) :=
+  forest_auth_path_exact n hn k r hr
+example : (1, 16) ∈ (forest 11).rows.map (fun kr => (kr.1, kr.2.idx)) ∧ (forest 11).nodes = 19 ∧
+    get_authentication_path_node_indices 16 22 19 = some (some [17, 21]) := by decide +kernel
+example : get_authentication_path_node_indices 16 17 19 = some none ∧
+    get_authentication_path_node_indices 16 15 19 = some none := by decide +kernel
+
+/-- **`leaf_index_to_mt_index_and_peak_index` against the table of the explicit forest**: for every leaf of the
+    forest with `n < 2^63` leaves the function returns the Merkle-tree index recorded in the table (root `1`, children
+    `2m`, `2m+1`, computed by walking the tree) and the position `k` of the leaf's tree in the peak list -/
+theorem mt_index_and_peak_index_agree_with_forest (n : Nat) (hn : n < 2^63) (k : Nat) (r : Row)
+    (hr : (k, r) ∈ (forest n).rows) (li : Nat) (hl : r.leaf = some li) :
+    li < n ∧ leaf_index_to_mt_index_and_peak_index li n = (r.mt, k) ∧
+    leaf_index_to_mt_index_and_peak_index_ok li n = true := by
+  obtain ⟨h1, h2⟩ := forest_mt_peak n hn k r hr li hl
+  have hn64 : n < 2^64 := by
+    have : (2:Nat)^63 < 2^64 := by decide
+    omega
+  exact ⟨h1, h2, (mt_spec li n h1 hn64).2⟩
+example : (1, some 9, 3) ∈ (forest 11).rows.map (fun kr => (kr.1, kr.2.leaf, kr.2.mt)) ∧
+    leaf_index_to_mt_index_and_peak_index 9 11 = (3, 1) := by decide +kernel
+
+/-! ## the whole property -/
 
 /-- FULL STATEMENT of C16 in executable form: for every leaf count below `2^63`, *every* index function (translated
     and hand-modelled, see `TF.Mmr.forestAgrees` / `rowAgrees`) reproduces the table of the explicit forest on every
@@ -249,23 +419,49 @@ example : get_peak_heights_and_peak_node_indices 11 = some ([3, 1, 0], [15, 18, 
     of every leaf as recorded in the table -/
 def all_functions_agree_with_forest_statement : Prop := ∀ n, n < 2^63 → forestAgrees n = true
 
-/-- the part of `all_functions_agree_with_forest_statement` that is proved for all `n < 2^63` (everything above,
-    collected): shape of the forest, all node-level functions, the leaf-level functions -/
-theorem all_functions_agree_with_forest_partial (n : Nat) (hn : n < 2^63) :
+/-- **C16**: for every leaf count below `2^63`, every index function — `num_leafs_to_num_nodes`, `get_peak_heights`,
+    `get_peak_heights_and_peak_node_indices`, `node_indices_added_by_append`, and on every node / leaf of the explicit
+    forest S0 `right_lineage_length_and_own_height`, `right_lineage_length_from_node_index`, `parent`,
+    `node_index_to_leaf_index`, `left_child` / `right_child`, `left_sibling` / `right_sibling`,
+    `leaf_index_to_node_index`, `leaf_index_to_mt_index_and_peak_index`, `right_lineage_length_from_leaf_index`,
+    `get_authentication_path_node_indices` — reproduces the table of S0 (append leaves, merge equal heights, number
+    the nodes by a running counter) -/
+theorem all_functions_agree_with_forest (n : Nat) (hn : n < 2^63) : forestAgrees n = true := forestAgrees_all n hn
+example : (9223372036854775807 : Nat) < 2^63 := by decide
+
+theorem all_functions_agree_with_forest_statement_holds : all_functions_agree_with_forest_statement :=
+  fun n hn => all_functions_agree_with_forest n hn
+
+/-- the same, spelled out as a proposition (no executable comparison involved) -/
+theorem all_functions_agree_with_forest_explicit (n : Nat) (hn : n < 2^63) :
     ((forest n).nodes = num_leafs_to_num_nodes n ∧ (forest n).leafs = n ∧
-      (forest n).peaks.map TF.Spec.Mmr.Tree.height = get_peak_heights n) ∧
+      (forest n).peaks.map TF.Spec.Mmr.Tree.height = get_peak_heights n ∧
+      get_peak_heights_and_peak_node_indices n
+        = some ((forest n).peaks.map TF.Spec.Mmr.Tree.height, (forest n).peaks.map TF.Spec.Mmr.Tree.idx) ∧
+      node_indices_added_by_append n
+        = some ((List.range ((forest (n+1)).nodes - (forest n).nodes)).map fun k => (forest n).nodes + 1 + k)) ∧
     ∀ k r, (k, r) ∈ (forest n).rows →
       (right_lineage_length_and_own_height r.idx = some (r.rll, r.height) ∧
+       right_lineage_length_from_node_index r.idx = some r.rll ∧
        node_index_to_leaf_index r.idx = some r.leaf ∧
        (r.parent ≠ 0 → parent r.idx = some r.parent ∧
          (r.rll ≠ 0 → left_sibling r.idx r.height = r.sibling ∧ left_sibling_ok r.idx r.height = true) ∧
          (r.rll = 0 → right_sibling r.idx r.height = r.sibling ∧ right_sibling_ok r.idx r.height = true)) ∧
        (0 < r.height → left_child r.idx r.height = r.left ∧ left_child_ok r.idx r.height = true ∧
-         right_child r.idx = r.right ∧ right_child_ok r.idx = true)) ∧
+         right_child r.idx = r.right ∧ right_child_ok r.idx = true) ∧
+       (∃ pk, ((forest n).peaks.map TF.Spec.Mmr.Tree.idx)[k]? = some pk ∧
+         get_authentication_path_node_indices r.idx pk (forest n).nodes = some (some r.auth))) ∧
       (∀ li, r.leaf = some li →
-        leaf_index_to_node_index li = r.idx ∧ right_lineage_length_from_leaf_index li = r.rll) :=
-  ⟨forest_shape_exact n hn, fun k r hr =>
-    ⟨forest_node_functions n hn k r hr, fun li hl => forest_leaf_functions n hn k r hr li hl⟩⟩
+        leaf_index_to_node_index li = r.idx ∧ right_lineage_length_from_leaf_index li = r.rll ∧
+        leaf_index_to_mt_index_and_peak_index li n = (r.mt, k) ∧
+        leaf_index_to_mt_index_and_peak_index_ok li n = true) := by
+  obtain ⟨s1, s2, s3⟩ := forest_shape_exact n hn
+  refine ⟨⟨s1, s2, s3, forest_peaks n hn, forest_added n hn⟩, fun k r hr => ?_⟩
+  obtain ⟨f1, f2, f3, f4⟩ := forest_node_functions n hn k r hr
+  refine ⟨⟨f1, forest_rll_node n hn k r hr, f2, f3, f4, forest_auth_path n hn k r hr⟩, fun li hl => ?_⟩
+  obtain ⟨g1, g2⟩ := forest_leaf_functions n hn k r hr li hl
+  obtain ⟨_, g3, g4⟩ := mt_index_and_peak_index_agree_with_forest n hn k r hr li hl
+  exact ⟨g1, g2, g3, g4⟩
 example : (1000 : Nat) < 2^63 := by decide
 
 /-! ## tests (kernel-evaluated, bounded): every function against the table of the explicit forest S0 -/
